@@ -28,3 +28,15 @@ func sweepPaths() [][]byte {
 	}
 	return out
 }
+
+// trivialPaths: the paths that add (almost) nothing to the base.
+var trivialPaths = []string{"", "/", "//", "///", ".", "/.", "./", "/./", "a", "/a", "/a/", "a/", "a//a"}
+
+// uncleanBases: bases that are not in clean form (and a few that are, as controls).
+var uncleanBases = []string{
+	"/data/", "/data//", "//data", "/data/.", "/data/./", "/data/../etc", "/data/../etc/", "/data/sub/..", "/data/sub/../", "/x/../data", "/data//sub/.",
+	"a//b/.", "a/", "a/./b//", "./a", "./a/", "./", ".//", "./.", "../", "..//", "../up/", "a/../b", "a/../b/", "a/b/../..", "./a/../b/", "data/..", "data/../",
+	"//", "/./", "/../", "/..", "/a/b/../../", "../../x/./",
+	// controls, already clean
+	"/", ".", "..", "/data", "data", "../up",
+}
